@@ -3,7 +3,7 @@
 
 use super::pin::{self, PIn};
 use crate::alloc_track::window;
-use crate::core::{Ctx, Fail, PropCase, Verdict};
+use crate::core::{Ctx, PropCase, Verdict};
 use crate::ensure;
 use crate::gen::smlgen;
 use crate::hexu::{hex_short, Case};
